@@ -91,10 +91,11 @@ def stats_of(events):
     traces, cur = [], None
     for e in events:
         if e["e"] == "Reset":
-            cur = dict(reset=e, n=0, R=0, Q=None, OC=False, sig=hashlib.sha1())
+            cur = dict(reset=e, n=0, R=0, Q=None, OC=False, sig=hashlib.sha1(), kinds=set())
             traces.append(cur)
             continue
         cur["n"] += 1
+        cur["kinds"].add(e["e"])
         cur["sig"].update(("%s%s%s%s|" % (e["e"], e.get("p"), e.get("c"), e.get("k"))).encode())
         if e["e"] == "R":
             cur["R"] += 1
@@ -344,3 +345,189 @@ def replay_file(pid, obj):
             print("VIOLATION property=%s replay=%s" % (pid, "(reproduced)"))
             return 1
     return 0
+
+
+# ================================================================================================ v1
+INV_V1 = ["TypeOK", "C01_Capacity", "C01_Round", "C01_Conservation", "C02_Order", "C07_Graceful", "C15_FailSafe"]
+
+
+def mk1(name, uni, init, H, div, nc, cap, items, outcap=2, fbcap=2, **kw):
+    c = dict(name=name, ver=1, prios=uni, nc=nc, initchan={str(p): init.get(p, 0) for p in uni}, H=H, div=div,
+             incap={str(c): cap for c in range(1, nc + 1)}, items={str(c): items for c in range(1, nc + 1)}, outcap=outcap, fbcap=fbcap,
+             stop=False, cancel=False, graceful=False, adds=[], rmvs=[], faults=0)
+    for k, val in kw.items():
+        if k == "unbuf":
+            for ch in val:
+                c["incap"][str(ch)] = 0
+        else:
+            c[k] = val
+    return c
+
+
+def v1_configs(kind, tier):
+    """recorder configurations (real code); the TLC configurations are smaller variants of the same shapes"""
+    big = tier == "thorough"
+    if kind == "stop":
+        return [mk1("v1stop", [2, 1], {2: 1, 1: 2}, 3, "rate", 2, 1, 6, stop=True, graceful=True),
+                mk1("v1stopsilent", [2, 1], {2: 1, 1: 2}, 3, "rate", 2, 2, 8, stop=True, extra=dict(silent_after_stop=True)),
+                mk1("v1cancel", [3, 2, 1], {3: 1, 2: 2, 1: 3}, 4, "fair", 3, 1, 5, cancel=True, graceful=True, extra=dict(silent_after_stop=True)),
+                mk1("v1stopunbuf", [2, 1], {2: 1, 1: 2}, 3, "rate", 2, 1, 5, stop=True, cancel=True, unbuf=[2], outcap=1, fbcap=1)]
+    if kind == "dyn":
+        return [mk1("v1dyn", [3, 2, 1], {2: 1, 1: 2}, 3, "fair", 4, 1, 5, graceful=True, adds=[[3, 3], [4, 1]], rmvs=[2]),
+                mk1("v1dynrate", [3, 2, 1], {3: 1, 2: 2}, 6, "rate", 4, 2, 6, graceful=True, adds=[[3, 1], [4, 2]], rmvs=[3, 1]),
+                mk1("v1dynunbuf", [3, 2, 1], {2: 1, 1: 2}, 4, "fair", 3, 1, 4, graceful=True, adds=[[3, 3]], rmvs=[1], unbuf=[2], outcap=1, fbcap=1)]
+    if kind == "grace":
+        return [mk1("v1grace", [2, 1], {2: 1, 1: 2}, 3, "rate", 2, 2, 6, graceful=True),
+                mk1("v1gracefair", [3, 2, 1], {3: 1, 2: 2, 1: 3}, 4, "fair", 3, 1, 4, graceful=True, unbuf=[3], outcap=1)]
+    if kind == "fault":
+        return [mk1("v1fault", [2, 1], {2: 1, 1: 2}, 3, "rate", 2, 2, 6, graceful=True, faults=1),
+                mk1("v1faultfair", [3, 2, 1], {3: 1, 2: 2, 1: 3}, 4, "fair", 3, 1, 4, graceful=True, faults=1)]
+    raise ValueError(kind)
+
+
+def v1_model(v, sc, binary, cfg, spec="Spec", properties=(), invariants=INV_V1, expect_violation=False, timeout=1500):
+    sub = os.path.join(sc, "m-" + cfg["name"])
+    os.makedirs(sub, exist_ok=True)
+    stage_specs(sub)
+    cfgp, rows = pm.div_table(binary, cfg, sub)
+    name = pm.write_mc_v1(sub, cfg, rows, invariants=invariants, properties=properties, spec=spec)
+    r = tlc(sub, name, cfg=name + ".cfg", workers=14, timeout=timeout)
+    if expect_violation:
+        if not r.prop_violated:
+            raise Inconclusive("regression twin %s: expected the liveness property to fail on the model of the pinned tree" % name)
+        v.cov.setdefault("regression_twins", []).append("%s: %s violated as expected (model of the pinned tree, F3)" % (name, ",".join(properties)))
+        return r
+    if not r.ok:
+        raise Inconclusive("TLC: model %s fails (a lead, not a verdict) or TLC failed\n%s" % (name, r.out[-3000:]))
+    v.add_tlc(r, "%s %s %s" % (name, spec, " ".join(properties)))
+    return r
+
+
+def spin_verdict(sub):
+    """the recorder exited 3: its watchdog found no harness progress for several seconds of wall time. Decide from the goroutine dump."""
+    try:
+        dump = open(os.path.join(sub, "spin_dump.txt")).read()
+        mark = json.load(open(os.path.join(sub, "spin_marker.json")))
+    except (OSError, ValueError):
+        return None
+    spinning = None
+    for g in dump.split("\n\n"):
+        head = g.split("\n", 1)[0]
+        if "github.com/akramarenkov/cqos" in g and re.search(r"\[(running|runnable)", head) and "verifharness" not in g.split("\n")[1]:
+            spinning = g
+    stop_waiting = "breaker.(*Breaker).Break" in dump
+    if spinning and stop_waiting:
+        return dict(marker=mark, goroutine=spinning[:1500])
+    return None
+
+
+def record_v1(binary, sc, cfg, runs, timeout=900):
+    sub = os.path.join(sc, "r-" + cfg["name"])
+    os.makedirs(sub, exist_ok=True)
+    cfgp = os.path.join(sub, "cfg.json")
+    json.dump(cfg, open(cfgp, "w"))
+    rc, out, wall = run_test(binary, "TestRecordV1$", env=dict(CFG=cfgp, OUT_DIR=sub, V1_RUNS=runs), timeout=timeout)
+    spin = None
+    if rc == 3:
+        spin = spin_verdict(sub)
+        if spin is None:
+            raise Inconclusive("v1 recorder watchdog fired without a spinning library goroutine\n" + out[-2000:])
+    elif "RECORDED v1" not in out:
+        # the bubble could not be left (a goroutine of the code under test never ends): the runs recorded so far, including
+        # the offending one (flushed from inside the bubble), are still judged; without any record it is inconclusive
+        if not os.path.exists(os.path.join(sub, "v1_events.ndjson")) or os.path.getsize(os.path.join(sub, "v1_events.ndjson")) == 0:
+            raise Inconclusive("v1 recorder died\n" + out[-3000:])
+        log("v1 recorder for %s ended early: %s" % (cfg["name"], out[-600:].replace("\n", " | ")))
+    allf = os.path.join(sub, "v1_events.ndjson")
+    obsf = os.path.join(sub, "v1_obs.ndjson")
+    n_s = 0
+    with open(allf) as f, open(obsf, "w") as o:
+        for line in f:
+            if line.startswith('{"e":"S"'):
+                n_s += 1
+            else:
+                o.write(line)
+    return dict(sub=sub, all=allf, obs=obsf, sched_events=n_s, races=races_in(out), spin=spin, wall=wall)
+
+
+def v1_property(pid, tier, kinds, nontrivial, rule, level="model_checking", models=None, runs=(250, 4000)):
+    v = Verdict(pid, tier, level)
+    with Scratch(pid.lower() + "v1") as sc:
+        binary = os.path.join(sc, "prioh.test")
+        build_test("prioh", binary)
+        if models:
+            models(v, sc, binary)
+        files, recs = [], []
+        for kind in kinds:
+            for cfg in v1_configs(kind, tier):
+                rec = record_v1(binary, sc, cfg, runs[0] if tier == "quick" else runs[1])
+                log("[%s] %s: recorded, %d scheduler events, %.1fs%s" % (pid, cfg["name"], rec["sched_events"], rec["wall"], " SPIN" if rec["spin"] else ""))
+                recs.append((cfg, rec))
+                files.append(rec["obs"])
+                if rec["spin"]:
+                    v.violation("C16: after Stop() the scheduling goroutine spins without ever blocking and Stop() never returns (config %s, run %s, seed %s)"
+                                % (cfg["name"], rec["spin"]["marker"].get("run"), rec["spin"]["marker"].get("seed")),
+                                dict(kind="prio-v1-spin", cfg=cfg, **rec["spin"])) if pid == "C16" else v.notes.append("spin detected in %s (verdict of C16)" % cfg["name"])
+        viol, events = run_monitor(sc, files, v)
+        log("[%s] monitor: %s" % (pid, {k: len(x) for k, x in viol.items()}))
+        traces = stats_of(events)
+        for t0 in sorted(viol.get(pid, set()))[:5]:
+            tr = trace_at(events, t0)
+            v.violation("%s: monitor Mon_Prio rejects a trace recorded from the real v1 code (config %s, run %d, seed %s): %s" % (
+                pid, tr[0].get("cfg"), tr[0]["path"], tr[0].get("seed"), summarize(pid, tr)),
+                dict(kind="prio-v1-run", cfg=tr[0].get("cfg"), run=tr[0]["path"], seed=tr[0].get("seed"), steps=tr[0].get("steps"), observed=tr[:500]))
+        nt = [t for t in traces if nontrivial(t)]
+        v.cov.update(evaluations=len(traces), distinct_nontrivial=len({t["sig"].hexdigest() for t in nt}),
+                     traces_validated_against_impl=len(traces) - len({t0 for s in viol.values() for t0 in s}),
+                     rule=rule, exhaustive=False, scheduler_events=sum(r["sched_events"] for _, r in recs),
+                     other_properties_flagged={k: len(s) for k, s in viol.items() if k != pid})
+        if traces:
+            v.sample(dict(observed_trace=[(e["e"], e.get("p"), e.get("c"), e.get("k")) for e in trace_at(events, 1)][:60]))
+            if len(traces) > 7:
+                t7 = [j for j, e in enumerate(events, 1) if e["e"] == "Reset"][7]
+                v.sample(dict(observed_trace=[(e["e"], e.get("p"), e.get("c"), e.get("k")) for e in trace_at(events, t7)][:60]))
+        v.assumptions += ["Go 1.26.8 testing/synctest virtual clock", "TLC", "seeded random gated schedules (not a transition cover) on the v1 code"]
+    return v.finish()
+
+
+def has(t, *names):
+    return any(n in t.get("kinds", ()) for n in names)
+
+
+def models_C16(v, sc, binary):
+    small = mk1("v1stopm", [2, 1], {2: 1, 1: 2}, 2, "rate", 2, 1, 1, stop=True, cancel=True)   # 2 items can occupy both handlers
+    v1_model(v, sc, binary, small, spec="StopSpec", properties=["C16_Live"])
+    twin = dict(small, name="v1stoptwin", f3fixed=False)
+    v1_model(v, sc, binary, twin, spec="StopSpec", properties=["C16_Live"], invariants=(), expect_violation=True)
+    if v.tier == "thorough":
+        v1_model(v, sc, binary, mk1("v1stopm2", [2, 1], {2: 1, 1: 2}, 3, "rate", 2, 1, 2, stop=True, graceful=True), spec="StopSpec", properties=["C16_Live"], timeout=3000)
+
+
+def check_C16(tier):
+    def extra_join(v):
+        pass
+    return v1_property("C16", tier, ["stop"], level="fault_enumeration",
+                       nontrivial=lambda t: has(t, "Stop", "Cancel") and t["R"] >= 1,
+                       rule="TLC: (stop or cancel requested) ~> terminated on the PrioV1 specification under scheduler fairness only (no environment help), with a "
+                            "regression twin (the loop of the pinned tree must exhibit the F3 lasso); real code: seeded gated schedules inject Stop()/cancel at a "
+                            "random scheduler step (before data, mid-round, 0..H in flight, output full, handlers silent afterwards), then give no help; Mon_Prio: Stop "
+                            "returns / the discipline terminates by the virtual deadline, nothing is written afterwards, deliveries are an in-order duplicate-free "
+                            "subsequence; a spinning scheduler is caught by a wall-clock watchdog + goroutine dump. non-trivial = stop/cancel with >= 1 delivery; distinct by events",
+                       models=models_C16)
+
+
+def models_C17(v, sc, binary):
+    v1_model(v, sc, binary, mk1("v1dynm", [3, 2, 1], {2: 1, 1: 2}, 3, "fair", 3, 1, 1, graceful=True, adds=[[3, 3]], rmvs=[1]))
+    if v.tier == "thorough":
+        v1_model(v, sc, binary, mk1("v1dynm2", [3, 2, 1], {2: 1, 1: 2}, 3, "fair", 4, 1, 1, graceful=True, adds=[[3, 3], [4, 1]], rmvs=[1]), timeout=3000)
+
+
+def check_C17(tier):
+    return v1_property("C17", tier, ["dyn"],
+                       nontrivial=lambda t: has(t, "AddRet", "RmvRet") and t["R"] >= 2,
+                       rule="TLC: capacity, conservation, order and graceful-termination invariants of PrioV1 across every interleaving of one add, one replace/re-add and "
+                            "one remove with traffic; real code: seeded gated schedules issue AddInput (new priority, replacement of a channel) and RemoveInput at random "
+                            "scheduler steps; Mon_Prio: tag = the priority the channel is registered under, no element is taken from a removed/replaced channel after the "
+                            "call returned (harness watches len() / parked writers), capacity and exactly-once across the change, GracefulStop returns. "
+                            "non-trivial = a call returned and >= 2 deliveries; distinct by events",
+                       models=models_C17)
